@@ -5,7 +5,7 @@
    `guarded` excludes exactly: a failing walk call when the wrapper does not clean up, and a
    modification that changes the composition of something reachable from a frozen object. *)
 From Coq Require Import ZArith List String Bool Arith.
-From PAFC13 Require Import Model Proofs1 Proofs2 Proofs3 Proofs4 Witness.
+From PAFC13 Require Import Model ClassArgs Proofs1 Proofs2 Proofs3 Proofs4 Proofs5 Witness.
 Import ListNotations.
 Open Scope list_scope.
 
@@ -250,6 +250,37 @@ Theorem C13_restore_legacy_refuted :
   snd (step cfg_norestore (ORestore 1 RDatabase) (fst (run cfg_norestore h_restore init0))) = Exn EAssertion.
 Proof. exact restore_legacy_raises. Qed.
 
+(* the process-wide constructor-argument memo (class_args_dict).  `class_args_run cfg m h` = the evaluations of
+   Model.constructor_argument_names a history makes, in order h (classes = indices of the class table: two classes of one
+   name are two classes), starting from memo m.  FULL, for the code as it is (dict keyed by the class object): whatever
+   models of whatever classes were composed or queried earlier (h0), every model reports the constructor arguments of
+   its own class -- the function `ctor_names` that instance_for / info of Model.v use *)
+Theorem C13_class_args_history_free : forall cfg h0 h,
+  snd (class_args_run cfg (fst (class_args_run cfg [] h0)) h) = map (ctor_names cfg) h.
+Proof. exact class_args_history_free. Qed.
+
+(* for ANY key the code might derive from a class: sufficient ... *)
+Theorem C13_class_args_key_sufficient : forall (K : Type) (keqb : K -> K -> bool) (key : nat -> K) (sig : nat -> list string),
+  (forall a b, keqb a b = true <-> a = b) -> (forall c d, key c = key d -> sig c = sig d) ->
+  forall h0 h, snd (can_run keqb key sig (fst (can_run keqb key sig [] h0)) h) = map sig h.
+Proof. exact memo_history_free. Qed.
+
+(* ... and necessary: a key shared by two classes with different constructors makes the answer of the second depend on
+   whether a model of the first came earlier in the process *)
+Theorem C13_class_args_key_necessary : forall (K : Type) (keqb : K -> K -> bool) (key : nat -> K) (sig : nat -> list string),
+  (forall a b, keqb a b = true <-> a = b) -> forall c d, key c = key d -> sig c <> sig d ->
+  snd (can_run keqb key sig [] [d]) = [sig d] /\
+  snd (can_run keqb key sig (fst (can_run keqb key sig [] [c])) [d]) = [sig c] /\
+  snd (can_run keqb key sig (fst (can_run keqb key sig [] [c])) [d]) <> snd (can_run keqb key sig [] [d]).
+Proof. exact memo_merge_leaks. Qed.
+
+(* the instance the generated histories exercise: a memo keyed by a NAME of the class (`__name__`, `__qualname__`,
+   `module.qualname`) leaks as soon as two composed classes share the name and differ in their constructor *)
+Theorem C13_class_args_name_key_leaks : forall names cfg c d,
+  nth c names EmptyString = nth d names EmptyString -> ctor_names cfg c <> ctor_names cfg d ->
+  snd (name_keyed_run names cfg (fst (name_keyed_run names cfg [] [c])) [d]) <> snd (name_keyed_run names cfg [] [d]).
+Proof. exact name_keyed_leaks. Qed.
+
 Print Assumptions C13_coherent_partial.
 Print Assumptions C13_history_independent.
 Print Assumptions C13_coherent_legacy_refuted_unrepaired_wrapper.
@@ -259,3 +290,7 @@ Print Assumptions C13_setitem_is_local.
 Print Assumptions C13_derive_is_a_query.
 Print Assumptions C13_coherent_full_when_repaired.
 Print Assumptions C13_coherent_full.
+Print Assumptions C13_class_args_history_free.
+Print Assumptions C13_class_args_key_sufficient.
+Print Assumptions C13_class_args_key_necessary.
+Print Assumptions C13_class_args_name_key_leaks.
